@@ -405,7 +405,7 @@ func (c *recFuncs) Get(i int) functions.IFunction   { return nil }
 func (c *recFuncs) GetAll() []functions.IFunction   { return nil }
 func (c *recFuncs) FindIndexByName(name string) int { return 0 }
 func (c *recFuncs) FindByName(name string) functions.IFunction {
-	return &recFunc{c.rc, strings.ToLower(name)}
+	return &recFunc{c.rc, strings.ToUpper(name)}
 }
 func (c *recFuncs) Remove(i int)             {}
 func (c *recFuncs) RemoveByName(name string) {}
@@ -685,12 +685,12 @@ func (x *xgen) leaf() int {
 	x.nc++
 	switch v := x.r.Intn(12); {
 	case v < 5:
-		k := []string{"a", "b", "c", "x1", "Delta", "été_2", "a", "b", "true", "Null", "and", "like", "\"x\"", "a\"b", "x y", "\"", "1a", "\"c"}[x.r.Intn(18)]
+		k := []string{"a", "b", "c", "x1", "Delta", "été_2", "a", "b", "true", "Null", "and", "like", "\"x\"", "a\"b", "x y", "\"", "1a", "\"c", "temp\u212a", "tempk", "ma\u00df", "MA\u1e9e"}[x.r.Intn(22)]
 		sp := k
 		if x.r.Intn(3) == 0 {
 			sp = strings.ToUpper(k)
 		}
-		return x.a.add(xnode{K: "var", Text: sp, Key: strings.ToLower(k)})
+		return x.a.add(xnode{K: "var", Text: sp, Key: strings.ToUpper(k)})
 	case v < 9:
 		if x.r.Intn(4) == 0 { // the same spelling may occur as a number and as a string constant in one expression
 			return x.a.add(xnode{K: "const", Op: []string{"int", "quoted"}[x.r.Intn(2)], Text: fmt.Sprint(1 + x.r.Intn(3))})
@@ -732,7 +732,7 @@ func (x *xgen) tree(d int) int {
 			kids = append(kids, x.tree(d-1))
 		}
 		nm := []string{"f", "g", "Min", "sum"}[x.r.Intn(4)]
-		return x.a.add(xnode{K: "call", Text: nm, Key: strings.ToLower(nm), Kids: kids})
+		return x.a.add(xnode{K: "call", Text: nm, Key: strings.ToUpper(nm), Kids: kids})
 	}
 }
 
@@ -801,7 +801,7 @@ func buildForm(a *xast, g *xgen, f xform, nested func() int, slot int) int {
 		l := arg(0)
 		m := arg(1)
 		r := arg(2)
-		return a.add(xnode{K: "call", Text: "f", Key: "f", Kids: []int{l, m, r}})
+		return a.add(xnode{K: "call", Text: "f", Key: "F", Kids: []int{l, m, r}})
 	}
 }
 
